@@ -261,11 +261,13 @@ Definition slot (st : list (val I)) (level : nat) : option (val I) :=
   | S k => nth_error (rev st) k
   end.
 
-Definition self_of (v : val I) : option I := match v with VX _ i => Some i | _ => None end.
+Definition self_of (v : val I) : option (nat * I) := match v with VX s i => Some (s, i) | _ => None end.
 
 (* one reported context: the with statement (site of its BEFORE_WITH, which determines
    is_async / varname / start_line), the manager object, is_exiting *)
-Record ctxv := { c_site : nat; c_async : bool; c_obj : option I; c_exiting : bool }.
+(* [c_from] is a ghost field that no observer sees: the with-site whose exit method the
+   slot actually held (equal to c_site iff the analysis picked the right slot) *)
+Record ctxv := { c_site : nat; c_async : bool; c_obj : option I; c_exiting : bool; c_from : nat }.
 
 Inductive tres := TOk (l : list ctxv) | TFail | TWarn.
 
@@ -278,8 +280,9 @@ Fixpoint objs_of (w : winfo) (st : list (val I)) (bl : list (nat * nat)) : optio
       | Some (site, asy) =>
           match slot st level with
           | Some v => match self_of v, objs_of w st r with
-                      | Some i, Some l =>
-                          Some ({| c_site := site; c_async := asy; c_obj := Some i; c_exiting := false |} :: l)
+                      | Some (from, i), Some l =>
+                          Some ({| c_site := site; c_async := asy; c_obj := Some i; c_exiting := false;
+                                   c_from := from |} :: l)
                       | _, _ => None
                       end
           | None => None
@@ -302,7 +305,8 @@ Definition trickery (c : code) (t : table) (running : bool) (lasti : nat) (st : 
           | ESome _ h =>
               match winfo_get w h with
               | Some (site, asy) =>
-                  TOk (l ++ [{| c_site := site; c_async := asy; c_obj := None; c_exiting := true |}])
+                  TOk (l ++ [{| c_site := site; c_async := asy; c_obj := None; c_exiting := true;
+                              c_from := site |}])
               | None => TFail
               end
           end
@@ -312,8 +316,6 @@ Definition trickery (c : code) (t : table) (running : bool) (lasti : nat) (st : 
 
 (* _contexts_active_by_referents on a suspended frame: every bound __exit__/__aexit__ among
    the referents (value stack, bottom to top), then the exiting marker *)
-Record refv := { r_obj : option I; r_async : bool; r_exiting : bool; r_site : nat }.
-
 Definition exits_on_stack (st : list (val I)) : list (nat * I) :=
   flat_map (fun v => match v with VX s i => [(s, i)] | _ => [] end) (rev st).
 
@@ -321,5 +323,5 @@ End WithValues.
 
 Arguments slot {I}. Arguments keep_bottom {I}. Arguments self_of {I}. Arguments trickery {I}.
 Arguments objs_of {I}. Arguments TOk {I}. Arguments TFail {I}. Arguments TWarn {I}.
-Arguments c_site {I}. Arguments c_async {I}. Arguments c_obj {I}. Arguments c_exiting {I}.
+Arguments c_site {I}. Arguments c_async {I}. Arguments c_obj {I}. Arguments c_exiting {I}. Arguments c_from {I}.
 Arguments Build_ctxv {I}. Arguments exits_on_stack {I}.
